@@ -50,7 +50,7 @@ theorem T_C13 (v : Variant) (attr : Toks) (item : Item) (out : Out)
     simp only [expand] at h
     split at h
     · simp at h
-    · obtain ⟨items, a, fns, tg, depMode, implBlock, _, h1, _, _, _, rfl⟩ := expandMod_ok h
+    · obtain ⟨items, a, fns0, fns, tg, depMode, implBlock, _, h1, _, hfns, _, _, rfl⟩ := expandMod_ok h
       simp [P_C13, h1, Out.view, View.items, Out.inside, Out.after, mainTrait?, traitsOf, genTraitDef_vis, traitVisibility, moduleVis_eq]
   | trait t =>
     obtain ⟨a0, fns, delegation, h1, _, h3, rfl⟩ := expandTrait_ok h
